@@ -87,6 +87,31 @@ func sameVal(a, b ssa.Value) bool {
 	if ga, gb := loadedGlobal(pa), loadedGlobal(pb); ga != nil && ga == gb {
 		return true // two loads of the same package-level variable (assumed not modified concurrently)
 	}
+	// two reads of one local cell (a named result kept in memory) that see the same stores
+	if la, ok := pa.(*ssa.UnOp); ok && la.Op == token.MUL {
+		if lb, ok := pb.(*ssa.UnOp); ok && lb.Op == token.MUL {
+			if aa, ok := la.X.(*ssa.Alloc); ok && la.X == lb.X && !aa.Heap || ok && la.X == lb.X {
+				sa, sb := flow.SpillSources(la), flow.SpillSources(lb)
+				if len(sa) > 0 && len(sa) == len(sb) {
+					same := true
+					for _, x := range sa {
+						found := false
+						for _, y := range sb {
+							if x == y {
+								found = true
+							}
+						}
+						if !found {
+							same = false
+						}
+					}
+					if same && !(len(sa) == 1 && sa[0] == ssa.Value(la)) {
+						return true
+					}
+				}
+			}
+		}
+	}
 	ca, ok1 := pa.(*ssa.Call)
 	cb, ok2 := pb.(*ssa.Call)
 	if ok1 && ok2 {
